@@ -74,6 +74,16 @@ Theorem C08_every_iteration_conserves_votes_whole_run : forall A S (ZL : zlike A
 Proof. exact count_meek_iterations. Qed.
 Print Assumptions C08_every_iteration_conserves_votes_whole_run.
 
+(* the final 'end' action of such a count (its snapshot is the head of the history): tallies + residual = the number of
+   ballots the count was given (cf_nballots, which the driver sets to the profile's ballot count) *)
+Theorem C08_end_snapshot_conserves_votes_whole_run : forall A S (ZL : zlike A S) cfg, cf_method cfg = MMeek ->
+  forall pr fuel s k, wf_profile_m pr ->
+  exec (@crashed A) fuel (count_cmd A cfg RMeek) (init_state A cfg pr) = Some (s, k) -> k <> Abort ->
+  exists a rest sn, actions s = a :: rest /\ a_tag a = TEnd /\ a_snap a = Some sn /\
+    raw ZL (as_votes sn) + match as_nt sn with Some x => raw ZL x | None => 0 end = cf_nballots cfg * S.
+Proof. exact count_meek_end. Qed.
+Print Assumptions C08_end_snapshot_conserves_votes_whole_run.
+
 (* ... and under the arithmetics whose comparisons and explicit roundings are exact (Fixed, integer, Guarded with guard 0),
    in every 'iterate' snapshot of such a count: no tally is negative, a hopeful candidate's keep factor is 1, an elected
    one's lies in (0, 1], a defeated or withdrawn one's is 0 (kfs reads an unset factor as 0), and the residual is not
